@@ -1621,6 +1621,34 @@ impl Deserialize for std::io::Error {
     }
 }
 
+/// Seams used only by the deterministic-simulation harness (built with `--cfg savefile_verif`).
+/// Not part of the public API; absent from normal builds.
+#[cfg(savefile_verif)]
+#[doc(hidden)]
+pub mod verif_hooks {
+    use std::cell::Cell;
+    thread_local! {
+        static NONCE: Cell<Option<(u64, u32)>> = const { Cell::new(None) };
+        static CRYPTO_BUFSIZE: Cell<Option<usize>> = const { Cell::new(None) };
+    }
+    /// Make every CryptoWriter created on this thread start from the given nonce (None = OsRng as usual).
+    pub fn set_nonce_override(nonce: Option<(u64, u32)>) {
+        NONCE.with(|x| x.set(nonce));
+    }
+    /// The nonce override for this thread, if any.
+    pub fn nonce_override() -> Option<(u64, u32)> {
+        NONCE.with(|x| x.get())
+    }
+    /// Override the plaintext chunk size of CryptoWriter/CryptoReader on this thread (None = default).
+    pub fn set_crypto_bufsize(size: Option<usize>) {
+        CRYPTO_BUFSIZE.with(|x| x.set(size));
+    }
+    /// The chunk size override for this thread, if any.
+    pub fn crypto_bufsize() -> Option<usize> {
+        CRYPTO_BUFSIZE.with(|x| x.get())
+    }
+}
+
 #[cfg(feature = "ring")]
 mod crypto {
     use ring::aead;
@@ -1648,6 +1676,10 @@ mod crypto {
 
     impl RandomNonceSequence {
         pub fn new() -> RandomNonceSequence {
+            #[cfg(savefile_verif)]
+            if let Some((data1, data2)) = crate::verif_hooks::nonce_override() {
+                return RandomNonceSequence { data1, data2 };
+            }
             RandomNonceSequence {
                 data1: OsRng.next_u64(),
                 data2: OsRng.next_u32(),
